@@ -139,7 +139,7 @@ def scan_forbidden(files: list[Path] | None = None) -> list[str]:
 
 
 def coq_project_text() -> str:
-    lines = ["-Q theories Shampoo", "-Q props ShampooProps", "-Q exec ShampooExec", "-arg -w -arg -notation-overridden,-deprecated-hint-without-locality,-deprecated-instance-without-locality,-ambiguous-paths,-deprecated-syntactic-definition"]
+    lines = ["-Q theories Shampoo", "-Q props ShampooProps", "-Q exec ShampooExec", "-arg -w -arg -notation-overridden,-deprecated-hint-without-locality,-deprecated-instance-without-locality,-ambiguous-paths,-deprecated-syntactic-definition,-inexact-float"]
     for d in ("theories", "exec", "props"):
         for f in sorted((COQ / d).glob("*.v")):
             lines.append(f"{d}/{f.name}")
@@ -167,7 +167,7 @@ def coq_build(verbose: bool = False, targets: list[str] | None = None) -> tuple[
 
 
 COQ_FLAGS = ["-Q", str(COQ / "theories"), "Shampoo", "-Q", str(COQ / "props"), "ShampooProps", "-Q", str(COQ / "exec"), "ShampooExec",
-             "-w", "-notation-overridden,-deprecated-hint-without-locality,-deprecated-instance-without-locality,-ambiguous-paths,-deprecated-syntactic-definition"]
+             "-w", "-notation-overridden,-deprecated-hint-without-locality,-deprecated-instance-without-locality,-ambiguous-paths,-deprecated-syntactic-definition,-inexact-float"]
 
 
 def parse_print_assumptions(vsrc: str, out: str) -> list[dict]:
